@@ -40,7 +40,7 @@ func (o *Ob) rejectsAfter(fn *ssa.Function, lit LitM, key, what string, acceptin
 
 func init() {
 	propInfos["C17"] = &propInfo{
-		Explanation: "Decides the structure of config validation and secrecy: (1) every well-formedness condition of the property is tested and its failing branch can only end in an error: root route present with receiver and without matchers/mute/active intervals, receiver names unique, time-interval names unique across both lists (one shared name set), every route's receiver and every referenced interval defined (checked recursively over all children), group_by without duplicates and without '...' mixed with labels, non-zero group/repeat interval, valid label names; Load uses strict decoding, rejects a missing route and 'continue' on the root; (2) every element of a YAML-decoded list of pointers is nil-checked before it is dereferenced (a null list entry must be an error, not a panic); (3) inline secrets are typed as secrets: every field X that has an X_file sibling has a masking type, and the masking types print the secret only under MarshalSecretValue; (4) the status API serves the marshalled configuration, never the raw input; (5) a rejected reload leaves the running configuration: no error exit of reloader.reload is reachable after its first live-state effect; the coordinator notifies subscribers only after a successful load; (6) the new inhibitor is running and loaded before it is published and before the new dispatcher starts.",
+		Explanation: "Decides the structure of config validation and secrecy: (1) every well-formedness condition of the property is tested and its failing branch can only end in an error: root route present with receiver and without matchers/mute/active intervals, receiver names unique, time-interval names unique across both lists (one shared name set), every route's receiver and every referenced interval defined (checked recursively over all children), group_by without duplicates and without '...' mixed with labels, non-zero group/repeat interval, valid label names; Load uses strict decoding, rejects a missing route and 'continue' on the root; (2) every element of a YAML-decoded list of pointers is nil-checked before it is dereferenced (a null list entry must be an error, not a panic); (3) inline secrets are typed as secrets: every field X that has an X_file sibling has a masking type, and the masking types print the secret only under MarshalSecretValue; (4) the status API serves the marshalled configuration, never the raw input; (5) a rejected reload leaves the running configuration: no error exit of reloader.reload is reachable after its first live-state effect; the coordinator notifies subscribers only after a successful load; (6) the new inhibitor is running and loaded before it is published and before the new dispatcher starts; a time range prints as it parses (24:00 stays 24:00).",
 		NotDecided:  "totality of the YAML library (no panic/hang inside yaml.v2), print/load equivalence of the marshalled form.",
 	}
 
